@@ -90,6 +90,8 @@ inductive TEv where
 
 structure RSt where
   deadline : Nat
+  prevDeadline : Nat := 0      -- the deadline that the latest renewal replaced
+  renewedAt : Nat := 0         -- hook time of the latest renewal
   renewals : Nat := 0
   lastAct  : Option Nat := none
   idleDl   : Nat := 0
@@ -97,11 +99,15 @@ structure RSt where
 
 /-- The implementation's trace is accepted iff every renewal follows some peer activity that was not
     yet used for a renewal … and a read only fails at or after the armed deadline (`slack` absorbs
-    clock granularity). -/
+    clock granularity).  The renewal's hook runs just before `SetReadDeadline`: for `slack` after it the
+    deadline it replaces may still be the one in force (the system call has not executed yet), so a read
+    that fails within that window is judged against the replaced deadline. -/
 def rstep? (T slack : Nat) (s : RSt) : TEv → Option RSt
   | .activity t => some { s with lastAct := some t }
-  | .renew t => some { s with deadline := t + T, renewals := s.renewals + 1 }
-  | .readFail t => if s.deadline ≤ t + slack then some s else none
+  | .renew t => some { s with deadline := t + T, prevDeadline := s.deadline, renewedAt := t, renewals := s.renewals + 1 }
+  | .readFail t =>
+    if s.deadline ≤ t + slack || (0 < s.renewals && t ≤ s.renewedAt + slack && s.prevDeadline ≤ t + slack) then some s
+    else none
   | .arm t => some { s with idleDl := t + T }
   | .idleFire t => if s.idleDl ≤ t + slack then some s else none
 
